@@ -35,8 +35,9 @@ Theorem C02_covers_sound :
 Proof. exact covers_sound. Qed.
 
 (* The same for an arbitrary schema (not only a definition), any [nn] flag and
-   both kinds of target, at every validity fuel: the statement the induction
-   proves. *)
+   the three kinds of target (a type, the members of a struct variant, the
+   elements of a tuple variant), at every validity fuel: the statement the
+   induction proves. *)
 Theorem C02_covers_core :
   forall re_match fmt_ok native_ok D T A,
     (forall f n s, In (f, n) format_native_table -> fmt_ok f s = true -> native_ok n s = true) ->
@@ -49,6 +50,8 @@ Theorem C02_covers_core :
       | TId t => exists f, de re_match native_ok T f t v <> None
       | TProps ps deny =>
           exists f, de_struct_body T (de re_match native_ok T f) (default_val T f) ps deny v <> None
+      | TTuple ts =>
+          exists f, de_payload T (de re_match native_ok T f) (default_val T f) false (VTuple ts) v <> None
       end.
 Proof. exact covers_core. Qed.
 
@@ -268,4 +271,121 @@ Proof.
   split; [reflexivity|]. split.
   - exists 4. split; vm_compute; reflexivity.
   - vm_compute. discriminate.
+Qed.
+
+(* ------------------------------------------------------------------ tagged and typed enums
+   Lvl  = {"type":"integer","enum":[1,2,3]}                           -> newtype over i64, values 1,2,3
+   Ext  = {"oneOf":[{"type":"string","enum":["Off"]},
+                    {"type":"object","properties":{"On":{"$ref":Lvl}},"required":["On"],
+                     "additionalProperties":false},
+                    {"type":"object","properties":{"Pair":{"type":"array","items":[{"type":"boolean"},{"$ref":Lvl}],
+                                                            "minItems":2,"maxItems":2}},
+                     "required":["Pair"],"additionalProperties":false}]}  -> externally tagged
+   Int  = {"oneOf":[{"type":"object","properties":{"k":{"type":"string","enum":["a"]}},"required":["k"]},
+                    {"type":"object","properties":{"k":{"type":"string","enum":["b"]},"x":{"$ref":Ext}},
+                     "required":["k","x"]}]}                            -> internally tagged (tag k)
+   Adj  = {"oneOf":[{"type":"object","properties":{"t":{"type":"string","enum":["n"]}},"required":["t"],
+                     "additionalProperties":false},
+                    {"type":"object","properties":{"t":{"type":"string","enum":["s"]},"c":{"$ref":Int}},
+                     "required":["t","c"],"additionalProperties":false}]} -> adjacently tagged (t, c) *)
+Definition str_enum (names : list string) : schema :=
+  sobj (Some [TString]) None (Some (map (fun x => JStr (u x)) names)) numv_none strv_none
+       ItemsAbsent [] None None [] [] None None None.
+Definition obj (props : list (ustring * schema)) (req : list ustring) (ap : option schema) : schema :=
+  sobj (Some [TObject]) None None numv_none strv_none ItemsAbsent [] None None props req ap None None.
+Definition one_of (bs : list schema) : schema :=
+  sobj None None None numv_none strv_none ItemsAbsent [] None None [] [] None (Some bs) None.
+
+Definition t_lvl : schema :=
+  sobj (Some [TInteger]) None (Some [JInt 1; JInt 2; JInt 3]) numv_none strv_none ItemsAbsent [] None None
+       [] [] None None None.
+Definition t_ext : schema :=
+  one_of [ str_enum ["Off"%string];
+           obj [(u "On", SRef (u "Lvl"))] [u "On"] (Some (SBool false));
+           obj [(u "Pair", sobj (Some [TArray]) None None numv_none strv_none ItemsTuple
+                                [sty TBoolean; SRef (u "Lvl")] (Some 2%N) (Some 2%N) [] [] None None None)]
+               [u "Pair"] (Some (SBool false)) ].
+Definition t_int : schema :=
+  one_of [ obj [(u "k", str_enum ["a"%string])] [u "k"] None;
+           obj [(u "k", str_enum ["b"%string]); (u "x", SRef (u "Ext"))] [u "k"; u "x"] None ].
+Definition t_adj : schema :=
+  one_of [ obj [(u "t", str_enum ["n"%string])] [u "t"] (Some (SBool false));
+           obj [(u "t", str_enum ["s"%string]); (u "c", SRef (u "Int"))] [u "t"; u "c"] (Some (SBool false)) ].
+
+Definition t_D : defs := [(u "Lvl", t_lvl); (u "Ext", t_ext); (u "Int", t_int); (u "Adj", t_adj)].
+Definition t_T : space :=
+  mkSpace
+    [ (0%N, mkEntry (DNewtype (u "Lvl") None 1%N (CEnum [JInt 1; JInt 2; JInt 3])) []);
+      (1%N, mkEntry (DInteger (u "i64")) []);
+      (2%N, mkEntry (DEnum (u "Ext") None TagExternal
+                           [mkVariant (u "Off") (u "Off") VSimple;
+                            mkVariant (u "On") (u "On") (VItem 0%N);
+                            mkVariant (u "Pair") (u "Pair") (VTuple [3%N; 0%N])] false []) []);
+      (3%N, mkEntry DBoolean []);
+      (4%N, mkEntry (DEnum (u "Int") None (TagInternal (u "k"))
+                           [mkVariant (u "a") (u "A") VSimple;
+                            mkVariant (u "b") (u "B") (VStruct [mkProp (u "x") RNone PRequired 2%N])]
+                           false []) []);
+      (5%N, mkEntry (DEnum (u "Adj") None (TagAdjacent (u "t") (u "c"))
+                           [mkVariant (u "n") (u "N") VSimple;
+                            mkVariant (u "s") (u "S") (VItem 4%N)] true []) []) ]
+    6%N (mkSettings None [] false (u "HashMap")) false false false false [].
+Definition t_A : list (ustring * id) := [(u "Lvl", 0%N); (u "Ext", 2%N); (u "Int", 4%N); (u "Adj", 5%N)].
+
+Example C02_tagged_covers : forall re_match native_ok, covers_all re_match native_ok t_D t_T t_A = true.
+Proof. intros. vm_compute. reflexivity. Qed.
+
+Example C02_tagged_sound :
+  forall re_match fmt_ok native_ok,
+    (forall f n s, In (f, n) format_native_table -> fmt_ok f s = true -> native_ok n s = true) ->
+    forall v, in_dom v = true ->
+    Valid re_match fmt_ok t_D (SRef (u "Adj")) v ->
+    exists f, de re_match native_ok t_T f 5%N v <> None.
+Proof.
+  intros re_match fmt_ok native_ok Hf v Hd Hv.
+  apply (covers_sound re_match fmt_ok native_ok t_D t_T t_A Hf (C02_tagged_covers _ _) (u "Adj") 5%N);
+    [right; right; right; left; reflexivity | exact Hd | exact Hv].
+Qed.
+
+Definition t_instance : json :=    (* {"t":"s","c":{"k":"b","x":{"Pair":[true,3]}}} *)
+  JObj [(u "t", JStr (u "s"));
+        (u "c", JObj [(u "k", JStr (u "b")); (u "x", JObj [(u "Pair", JArr [JBool true; JInt 3])])])].
+
+Example C02_tagged_instance :
+  let yes := fun _ _ : ustring => true in
+  in_dom t_instance = true
+  /\ Valid yes yes t_D (SRef (u "Adj")) t_instance
+  /\ de yes yes t_T 8 5%N t_instance <> None.
+Proof.
+  split; [reflexivity|]. split.
+  - exists 6. split; vm_compute; reflexivity.
+  - vm_compute. discriminate.
+Qed.
+
+(* an open branch next to deny_unknown_fields is refused: {"k":"a","zzz":1} is
+   valid for the first branch of Int but serde would reject it *)
+Definition t_T_deny : space :=
+  mkSpace
+    [ (0%N, mkEntry (DNewtype (u "Lvl") None 1%N (CEnum [JInt 1; JInt 2; JInt 3])) []);
+      (1%N, mkEntry (DInteger (u "i64")) []);
+      (2%N, mkEntry (DEnum (u "Ext") None TagExternal
+                           [mkVariant (u "Off") (u "Off") VSimple;
+                            mkVariant (u "On") (u "On") (VItem 0%N);
+                            mkVariant (u "Pair") (u "Pair") (VTuple [3%N; 0%N])] false []) []);
+      (3%N, mkEntry DBoolean []);
+      (4%N, mkEntry (DEnum (u "Int") None (TagInternal (u "k"))
+                           [mkVariant (u "a") (u "A") VSimple;
+                            mkVariant (u "b") (u "B") (VStruct [mkProp (u "x") RNone PRequired 2%N])]
+                           true []) []) ]
+    5%N (mkSettings None [] false (u "HashMap")) false false false false [].
+
+Example C02_open_branch_refused :
+  forall re_match native_ok,
+    covers re_match native_ok t_T_deny [(u "Lvl", 0%N); (u "Ext", 2%N); (u "Int", 4%N)] t_int false (TId 4%N) = false
+    /\ Valid re_match (fun _ _ => true) t_D t_int (JObj [(u "k", JStr (u "a")); (u "zzz", JInt 1)])
+    /\ forall f, de re_match native_ok t_T_deny f 4%N (JObj [(u "k", JStr (u "a")); (u "zzz", JInt 1)]) = None.
+Proof.
+  intros. split; [vm_compute; reflexivity|]. split.
+  - exists 2. split; vm_compute; reflexivity.
+  - intros [|f]; reflexivity.
 Qed.
